@@ -967,6 +967,20 @@ class Models:
             for st2, e in self.split_enum(fr, dv[0], ["Ok", "Err"]):
                 outs.append((st2, ("enum", "Option", "Some", e[3]) if e[2] == "Ok" else ("enum", "Option", "None", ())))
             return outs
+        if name in ("or_else", "or") and (is_opt or is_res) and len(vals) == 2:
+            # Option::or_else(|| ..) / Result::or_else(|e| ..): the fallback runs only for None / Err - its effects (a rewind, an alt
+            # restore) belong to that path
+            outs = []
+            names = ["Some", "None"] if is_opt else ["Ok", "Err"]
+            for st2, e in self.split_enum(fr, dv[0], names):
+                if e[2] in ("Some", "Ok"):
+                    outs.append((st2, e))
+                elif name == "or":
+                    outs.append((st2, dv[1] if len(dv) > 1 else vals[1]))
+                else:
+                    f2 = Frame(self.I, fr.body, fr.fid, st2, fr.depth)
+                    outs.extend(self.apply(f2, vals[1], [] if is_opt else [e[3][0] if e[3] else TOP], line))
+            return outs
         if is_res and name in ("and_then", "map", "map_err", "unwrap_or_else"):
             outs = []
             for st2, e in self.split_enum(fr, dv[0], ["Ok", "Err"]):
